@@ -1007,6 +1007,17 @@ class FnTypes:
         return join_all(out) if out else ANY
 
     def call_type(self, e: ast.Call, env):
+        # type(x)(...) and x.__class__(...) build another instance of x's class
+        f0 = e.func
+        inner = None
+        if isinstance(f0, ast.Call) and isinstance(f0.func, ast.Name) and f0.func.id == "type" and len(f0.args) == 1:
+            inner = f0.args[0]
+        elif isinstance(f0, ast.Attribute) and f0.attr == "__class__":
+            inner = f0.value
+        if inner is not None:
+            t = self.type_of(inner, env)
+            if t != ANY and t and all(isinstance(a, str) for a in t):
+                return t
         if isinstance(e.func, ast.Name) and e.func.id == "partial" and e.args:
             r = self.model.resolve_name(self.fn.module, "partial")
             if r and r[0] == "ext" and r[1] == "functools.partial":
